@@ -284,6 +284,35 @@ def run_case(ctx, case, model=True):
         if observe(o, names) != obs0[i]:
             ctx.fail("predicate", "merge-operand-mutated", f"operand {i} changed: {obs0[i]} -> {observe(o, names)}", where)
             obs0[i] = observe(o, names)
+    # … and stay unchanged when the RESULT is used afterwards: it is a record of its own (D99: with a field unset on one side the
+    # result used to be handed the other operand's own table)
+    if ab is not None:
+        import copy as _copy
+        used = _copy.copy(ab[0])          # (the fields are the result's own objects; `ab` itself is combined further below)
+        kept = None
+        try:
+            if used.total_emission_kg is not None:
+                _ = used.total_emission_kg.get("no such species"), [used.total_emission_kg[k] for k in list(used.total_emission_kg)]
+                first = next(iter(used.total_emission_kg), None)
+                if first is not None:
+                    kept = used.total_emission_kg[first]
+                    used.total_emission_kg[first] = kept * 2.0 + 1.0
+            if used.detail_result is not None and len(used.detail_result.columns) > 0:
+                used.detail_result["operation mode"] = "transit"
+            ctx.count("result_used_after_merge", True)
+        except Exception as e:
+            ctx.count("result_use_rejected", core.error_class(e))
+        for i, o in enumerate(objs[:2]):
+            now = observe(o, names)
+            cols = list(o.detail_result.columns) if o.detail_result is not None else []
+            if now != obs0[i] or "operation mode" in cols:
+                ctx.fail("predicate", "merge-result-shares-operand", f"operand {i} changed when the combined result was used: {obs0[i]} -> {now}, columns {cols}", where)
+                obs0[i] = now
+        # (undo on the result, whose tables are its own)
+        if kept is not None:
+            used.total_emission_kg[next(iter(used.total_emission_kg))] = kept
+        if used.detail_result is not None and "operation mode" in used.detail_result.columns:
+            del used.detail_result["operation mode"]
     if len(specs) == 3 and ab is not None:
         l = merged(ab[0], objs[2], ab[1], obs0[2], "(a+b)+c")
         bc = merged(objs[1], objs[2], obs0[1], obs0[2], "b+c")
